@@ -82,7 +82,7 @@ def collect(cases, res, failing, what, sig_fn=None, corr_name="corr_client"):
     return violations, corr
 
 
-def sub_oracles(ctx, res, failing, oracles, name, require="Corr.RunClient"):
+def sub_oracles(ctx, res, failing, oracles, name, require="Corr.RunClient", chunk=4):
     """evaluate the named sub-oracles on the failing cases only (one parallel coqc pass);
     returns {case index: {oracle: bool}}"""
     import os
@@ -91,7 +91,7 @@ def sub_oracles(ctx, res, failing, oracles, name, require="Corr.RunClient"):
     if not idx:
         return out
     paths, bases = [], []
-    for si, chunk in enumerate(common.chunks(list(enumerate(idx)), 4)):
+    for si, chunk in enumerate(common.chunks(list(enumerate(idx)), chunk)):
         body = (f"From Hermes Require Import {require}.\n"
                 "Definition cases : list ccase := [\n" + ";\n".join(res[i][1] for _, i in chunk) + "\n].\n"
                 f"Eval vm_compute in (check_bits [{'; '.join(oracles)}] cases).\n")
